@@ -10,6 +10,8 @@ import (
 
 var Registry = map[string]func(*mc.Ctx){
 	"C13": C13,
+	"C10": C10,
+	"C12": C12,
 }
 
 // Replayers re-execute a recorded witness without the explorer; keyed by engine.
